@@ -69,7 +69,23 @@ func c01RunSpec(spec *TASpec, scratch string) *C01RunResult {
 	res := &C01RunResult{Index: spec.Index, Name: spec.Name}
 	start := time.Now()
 	opts := TAOpts{VdrMode: spec.VdrMode, MroPaths: spec.MroPaths, InlineFinish: spec.InlineFinish,
-		StartSeparate: spec.StartSeparate, StepBias: spec.StepBias, Adversarial: spec.Adversarial}
+		StartSeparate: spec.StartSeparate, StepBias: spec.StepBias, Adversarial: spec.Adversarial,
+		Faults: spec.Faults}
+	var run *TARun
+	// ECHO* stages (program family c01_family.go): the first output is the first input
+	opts.OutsHook = func(job *TAJob, outs map[string]interface{}) {
+		if run == nil || !strings.HasPrefix(job.StageName, "ECHO") || job.ShellName == "split" {
+			return
+		}
+		stage, _ := run.Ast.Callables.Table[job.StageName].(*syntax.Stage)
+		if stage == nil || len(stage.InParams.List) == 0 || len(stage.OutParams.List) == 0 {
+			return
+		}
+		var args map[string]interface{}
+		if json.Unmarshal(job.Args, &args) == nil {
+			outs[stage.OutParams.List[0].Id] = args[stage.InParams.List[0].Id]
+		}
+	}
 	run, err := NewTARun(spec.Src, scratch, spec.Seed, opts)
 	if err != nil {
 		res.Final = "compile-error"
